@@ -51,6 +51,7 @@ func runC10(r *Run, verifDir string) {
 	r.Assume = append(r.Assume, "the server answers requests of one connection in order (KMIP over a stream carries no request identifier the client could check)")
 	r.NotCov = append(r.NotCov, "the end-to-end statement under a real scheduler (interleavings are not enumerated)", "a server that answers out of order")
 	c10L1(r)
+	c10L1Unlocks(r)
 	c10L2(r)
 	c10L3(r)
 	c10L4(r)
@@ -542,6 +543,7 @@ func runC11(r *Run, verifDir string) {
 	terminateClosesStream(r, "C11.M12", "kmipclient")
 	c11DialerContext(r)
 	c11DialerClosures(r)
+	c11WhoCloses(r)
 	c11M6(r)
 }
 
@@ -889,6 +891,43 @@ func c11M4(r *Run) {
 		r.OK("C11.M4", "kmipclient.conn.checkAvailable", ca.Pos(), "a closed connection yields net.ErrClosed, which is neither io.EOF nor io.ErrClosedPipe: calls on a closed client fail instead of reconnecting")
 	} else {
 		r.Bad("C11.M4", "kmipclient.conn.checkAvailable", ca.Pos(), "checkAvailable does not fail with net.ErrClosed when the connection is closed")
+	}
+}
+
+// c10L1Unlocks: the exchange mutex is released only by the deferred Unlock of doRountrip: any other Unlock in the
+// package (on a *sync.Mutex or through a sync.Locker handed down the call chain) opens the critical section in the
+// middle of an exchange, so two callers can be between "request written" and "response read" at once and the
+// response queue no longer pairs each caller with its own response.
+func c10L1Unlocks(r *Run) {
+	p := r.P
+	n := 0
+	for _, fn := range pkgFuncs(p, "kmipclient") {
+		allInstrs(fn, func(in ssa.Instruction) {
+			c := callOf(in)
+			if c == nil {
+				return
+			}
+			isUnlock := false
+			if c.IsInvoke() {
+				isUnlock = c.Method.Name() == "Unlock" && typeName(c.Value.Type()) == "Locker"
+			} else if id := callID(c); id.pkg == "sync" && (id.recv == "Mutex" || id.recv == "RWMutex") && id.name == "Unlock" {
+				isUnlock = true
+			}
+			if !isUnlock {
+				return
+			}
+			n++
+			key := fmt.Sprintf("%s/unlock#%d", fnKey(fn), n)
+			_, deferred := in.(*ssa.Defer)
+			if deferred && fnKey(fn) == "kmipclient.Client.doRountrip" {
+				r.OK("C10.L1", key, in.Pos(), "the deferred Unlock that closes the exchange")
+			} else {
+				r.Bad("C10.L1", key, in.Pos(), "%s releases a mutex in the middle of the exchange path (not the deferred Unlock of doRountrip): another caller can write its request and start waiting before this one has read its response, so responses can be handed to the wrong caller", fnKey(fn))
+			}
+		})
+	}
+	if n == 0 {
+		r.Unk("C10.L1", "kmipclient/unlocks", token.NoPos, "no Unlock found in the client")
 	}
 }
 
@@ -1492,5 +1531,51 @@ func c11DialerClosures(r *Run) {
 	}
 	if n == 0 {
 		r.Unk("C11.M12", "kmipclient/dialers", token.NoPos, "no dialer function found")
+	}
+}
+
+// c11WhoCloses: conn.Close records "closed by its owner", which reconnect and failed() read as "the client must not
+// come back to life". It may therefore be called only by Client.Close, or on a connection that is replaced right away
+// (reconnect: Close, then c.conn = newConn(...)). Any other call (a clean-up on a give-up path, ...) turns a client
+// its user never closed into one that answers net.ErrClosed for ever, although the server is reachable again.
+func c11WhoCloses(r *Run) {
+	p := r.P
+	n := 0
+	for _, fn := range pkgFuncs(p, "kmipclient") {
+		allInstrs(fn, func(in ssa.Instruction) {
+			c := callOf(in)
+			if c == nil || !callID(c).is(cliPath, "conn", "Close") {
+				return
+			}
+			n++
+			key := fmt.Sprintf("%s/conn.Close#%d", fnKey(fn), n)
+			if fnKey(fn) == "kmipclient.Client.Close" {
+				r.OK("C11.M4", key, in.Pos(), "the client's own Close")
+				return
+			}
+			// replaced right away: a store of a newConn result into Client.conn that this call dominates
+			replaced := false
+			allInstrs(fn, func(i2 ssa.Instruction) {
+				st, ok := i2.(*ssa.Store)
+				if !ok {
+					return
+				}
+				fa, ok := st.Addr.(*ssa.FieldAddr)
+				if !ok || typeName(fa.X.Type()) != "Client" {
+					return
+				}
+				if nc, ok := st.Val.(*ssa.Call); ok && callID(&nc.Call).is(cliPath, "", "newConn") {
+					// the close is on the way to the replacement (it need not dominate it: `if c.conn != nil { Close }`)
+					if in.Block().Dominates(st.Block()) || reachableFrom(in.Block())[st.Block()] {
+						replaced = true
+					}
+				}
+			})
+			if replaced {
+				r.OK("C11.M4", key, in.Pos(), "the closed connection is replaced by a new one right away")
+			} else {
+				r.Bad("C11.M4", key, in.Pos(), "%s calls conn.Close on the client's connection without replacing it: Close marks the connection as closed by its owner, so the client — which its user never closed — refuses every later call with net.ErrClosed instead of re-dialling once the server is reachable again", fnKey(fn))
+			}
+		})
 	}
 }
